@@ -3,6 +3,7 @@
 package static
 
 import (
+	"encoding/json"
 	"context"
 	"fmt"
 	"reflect"
@@ -463,6 +464,16 @@ func c01Histories(out *vu.Out, rng *vu.Rng, n int, focusGrants bool) {
 				vu.StrList(longRel), vu.StrList(freshConds), vu.StrList(cflags), vu.List(cw.delivered), cw.storeTerm())
 			human := map[string]any{"history": hops, "restarts": cw.restarts, "flags": cflags, "long_conds": longRel, "fresh_conds": freshConds,
 				"long_files": longFiles, "fresh_files": freshFiles, "compared": map[bool]string{true: "at the end", false: "at a checkpoint"}[final]}
+			if strings.Join(longRel, "\n") != strings.Join(freshConds, "\n") {
+				// for the replay of a difference: what is in the cluster (specs and statuses as the long-lived controller left them)
+				var dump []string
+				for _, o := range vpListAll(cw.k8s) {
+					b, _ := json.Marshal(o)
+					dump = append(dump, c05Key(o)+" "+string(b))
+				}
+				human["cluster_objects"] = dump
+				human["delivered_to_current_incarnation"] = cw.delivered
+			}
 			out.Case(term, human, len(hops) >= 15, strings.Join(hops, ";"))
 			out.Tally("compared", map[bool]string{true: "end", false: "checkpoint"}[final])
 		}
